@@ -103,7 +103,7 @@ def make(D, P, domain="sync", widths=(4, 1)):
                  clause="reading back sample n returns the n-th recorded sample")
 
         c.cover("capture_complete", z3.And(O["complete"] == 1, have == 1))
-        c.cover("trigger_during_capture", z3.And(busy == 1, trig, k != 0))
+        c.cover("trigger_during_capture", z3.And(busy == 1, trig, k == (1 if D > 1 else 0)))
         c.cover("second_capture", z3.And(done == 1, trig))
         c.cover("readback_nonzero", z3.And(done == 1, number_is_n, v != 0, c.nx(O["sample"]) == v))
         c.cover_depth = D + P + 5
